@@ -21,7 +21,33 @@ inductive Tok where
 /-- a path: its steps, and whether it ends in an abort -/
 abbrev SkelPath := List Tok × Bool
 
-/-- equality of two path lists as sets -/
-def sameSet (a b : List SkelPath) : Bool := a.all (b.contains ·) && b.all (a.contains ·)
+/-- the body of a `range` loop: a set of paths -/
+abbrev Body := List (List Atom × Bool)
+
+def bodyEq (a b : Body) : Bool := a.all (b.contains ·) && b.all (a.contains ·)
+
+def bodiesOf (ps : List SkelPath) : List Body :=
+  ps.flatMap fun p => p.1.filterMap fun t => match t with
+    | .range b => some b
+    | _ => none
+
+/-- a path with the bodies of its `range` loops blanked -/
+def stripBodies (p : SkelPath) : SkelPath :=
+  (p.1.map fun t => match t with
+    | .range _ => .range []
+    | t => t, p.2)
+
+/-- Equality of two path lists as sets, the bodies of `range` loops being sets themselves.  Decided by a
+sufficient condition that is cheap to evaluate: the lists are equal as sets once the loop bodies are
+blanked, AND all loop bodies that occur on either side are one and the same set (true for the
+functions compared here: one `range` loop; a function with two different loops would need a
+position-wise comparison — the check would fail, not pass wrongly). -/
+def sameSet (a b : List SkelPath) : Bool :=
+  let sa := a.map stripBodies
+  let sb := b.map stripBodies
+  sa.all (sb.contains ·) && sb.all (sa.contains ·) &&
+  match (bodiesOf a ++ bodiesOf b).eraseDups with
+  | [] => true
+  | r :: rest => rest.all (bodyEq r)
 
 end NA.Ios
